@@ -69,6 +69,8 @@ impl Datagrams<'_> {
         let max_size = self.conn.path.current_mtu() as usize
             - self.conn.predict_1rtt_overhead(None)
             - Datagram::SIZE_BOUND;
+        // Sending requires datagram support to be enabled locally as well
+        self.conn.config.datagram_receive_buffer_size?;
         let limit = self.conn.peer_params.max_datagram_frame_size?.into_inner();
         if limit < 2 {
             // Not even an empty datagram fits into a frame with a length field, and zero means that
